@@ -802,7 +802,7 @@ class TextEngine:
         n = self.counter
         H = len(self.headings)
         if rng.chance(self.cfg["p_restart"], "restart?"):
-            return {"op": "restart", "how": rng.choice(["xml", "doc", "doc_pretty"], "rhow")}
+            return {"op": "restart", "how": rng.choice(["xml", "xml_short", "doc", "doc_pretty"], "rhow")}
         what = rng.weighted([("add_heading", 8), ("insert_heading", 3), ("delete_heading", 2 if H else 0), ("retitle", 2 if H else 0), ("relevel", 2 if H else 0),
                              ("add_para", 2), ("set_outline", 2 if self.tocs else 0), ("add_toc", 2 if len(self.tocs) < 2 else 0), ("move_toc", 1 if self.tocs else 0),
                              ("style_title", 1.5 if self.tocs else 0), ("fill", 6 if self.tocs else 0), ("fill_twice", 3 if self.tocs else 0)], "what20")
@@ -812,6 +812,8 @@ class TextEngine:
         if what in ("add_heading", "insert_heading"):
             op["level"] = rng.randint(1, self.cfg.get("max_level", 3), "level")
             op["text"] = self._heading_text(rng, n)
+            if rng.chance(0.2, "lvlform"):
+                op["level_form"] = rng.choice(["float", "str", "bool_or_int"], "lvlformkind")  # Header(2.0, ...), Header("2", ...)
             if rng.chance(0.2, "hspan"):
                 op["span"] = True
             if rng.chance(0.25, "hmark"):
@@ -886,7 +888,9 @@ class TextEngine:
 
         try:
             if name in ("add_heading", "insert_heading"):
-                h = Header(op["level"], op["text"])
+                lf = op.get("level_form")
+                lvl_arg = float(op["level"]) if lf == "float" else (str(op["level"]) if lf == "str" else (True if (lf == "bool_or_int" and op["level"] == 1) else op["level"]))
+                h = Header(lvl_arg, op["text"])
                 if op.get("span"):
                     h.set_span("T1", regex=r"\w+")
                 mk = op.get("mark")
@@ -981,7 +985,8 @@ class TextEngine:
                     self.doc = Document(buf)
                 else:
                     data = self.doc.content.serialize()
-                    self.doc.set_part("content.xml", data)
+                    # (the part can be named by its file name or by the documented short name)
+                    self.doc.set_part("content" if op.get("how") == "xml_short" else "content.xml", data)
                 self.n_restart += 1
                 body = self.doc.body
                 if op.get("how") == "doc_pretty":
